@@ -103,6 +103,14 @@ def check(ctx, run):
     wr = [e for e in wr if e.get("tensor") is not None] or wr
     okb = bool(wr) and len(rd) == 1 and all(e["name"] == rd[0]["args"][0] and same_values(e["tensor"]) == out for e in wr)
     fact(run, prog, hook, "C03.R3b", f"hook stores its output argument itself under the name PrevHedge reads ({wr[0]['name'] if wr else '?'} / {rd[0]['args'][0] if rd else '?'})", okb)
+    # (b') ... and PrevHedge hands the model that buffer whole: one column per hedging instrument (an index on its last axis would pick one
+    # instrument, an index on the middle axis one step of an all-steps evaluation)
+    ph2 = W.feature("PrevHedge", hedger=Obj(W.HEDGER, "hedger"))
+    hb_ = Sym("stored_prev_output", ("tensor",))
+    ph2.attrs["hedger"].attrs["__buf_prev_output"] = hb_
+    res3 = [r for r in interp.explore(prog.lookup_method(ph2.cls, "get"), [W.integer("i")], {}, self_obj=ph2) if not r["raises"]]
+    okw = bool(res3) and all(same_values(r["value"]) == hb_ for r in res3)
+    fact(run, prog, prog.lookup_method(ph2.cls, "get"), "C03.R3b", "PrevHedge.get returns the stored previous output whole (all hedging instruments)", okw)
     # (c,d,e) on compute_hedge with two hedging instruments
     ch = prog.lookup_method(W.HEDGER, "compute_hedge")
     hedge = [Obj(W.PRIMARY, "hA"), Obj(W.PRIMARY, "hB")]
